@@ -2,7 +2,7 @@
 from vf import gen, ref, anchors
 from vf.core import exc_desc
 from vf.lazy import libx, common
-from vf.monitors import algos
+from vf.monitors import algos, large
 
 PROP = "C08"
 TECHNIQUE = ('runtime monitoring of BioConsert (JIT, bounds-checked JIT, interpreted kernels with anchor coverage and strict-index arrays): every single-element move of every returned ranking priced by the reference table')
@@ -62,13 +62,21 @@ def plan(tier, seed):
     if tier == "quick":
         return ([{"n_cases": 260, "mode": "A", "hashseed": i % 2} for i in range(5)] +
                 [{"n_cases": 130, "mode": "B", "hashseed": i} for i in range(2)] +
-                [{"n_cases": 50, "mode": "C", "hashseed": 0}, {"n_cases": 50, "mode": "C", "hashseed": 1}])
+                [{"n_cases": 50, "mode": "C", "hashseed": 0}, {"n_cases": 50, "mode": "C", "hashseed": 1}] +
+                [{"n_cases": 2, "mode": "A", "params": {"xlarge": prof}, "hashseed": i % 2}
+                 for i, prof in enumerate(["heavy", "wide", "tall", "cells"])])
     return ([{"n_cases": 1500, "mode": "A", "hashseed": i % 4} for i in range(9)] +
             [{"n_cases": 1500, "mode": "B", "hashseed": i} for i in range(4)] +
-            [{"n_cases": 300, "mode": "C", "hashseed": i} for i in range(3)])
+            [{"n_cases": 300, "mode": "C", "hashseed": i} for i in range(3)] +
+            [{"n_cases": 8, "mode": "A", "params": {"xlarge": prof}, "hashseed": i}
+             for i, prof in enumerate(["heavy", "wide", "tall", "cells"])])
 
 
 def gen_case(rng, ctx):
+    if ctx.params.get("xlarge"):
+        case = large.gen_large(rng, profiles=[ctx.params["xlarge"]], schemes="S1 S1 S2 S3")
+        case["dcls"] = "xlarge"
+        return case
     big = rng.random() < 0.05 and "C" not in ctx.mode
     nmax = 16 if big else (7 if "C" in ctx.mode else 10)
     cls, ds = gen.dataset(rng, classes="D2 D2 D3 D3 D4 D9 D10 D11 D8 D7 D15 D13 D16 D16 D17", nmax=nmax, mmax=7)
@@ -78,9 +86,49 @@ def gen_case(rng, ctx):
             "configs": [rng.choice(CONFIGS), "BioConsert"]}
 
 
+def check_xlarge(case, ctx):
+    """size classes of vf/monitors/large.py: best single-element move of every returned ranking priced by the vectorised
+    reference"""
+    lc = large.Context(case)
+    common.set_case(ctx, large.slim(case))
+    ctx.count("xlarge:" + case["profile"])
+    cfgs = ["BioCo", "BioConsert[Copeland]", "BioConsert[Borda]"]
+    if case["profile"] == "wide" and case["m"] <= 5:
+        cfgs.append("BioConsert")
+    for cfg in cfgs:
+        sub = large.slim(case, configs=[cfg], libseed=case["libseed"])
+        st, cons = large.run(cfg, lc, False, case["libseed"])
+        if st != "ok":
+            if large.refusal_expected(cfg, cons, lc):
+                ctx.count("refused")
+                continue
+            ctx.violation(f"C08/raises-{type(cons).__name__}", f"{cfg} raised {exc_desc(cons)} on {case['n']} elements x "
+                          f"{case['m']} rankings", sub)
+            continue
+        ctx.unit()
+        ctx.count("runs:" + cfg)
+        for r in [libx.raw_ranking(x) for x in cons.consensus_rankings][:3]:
+            if not lc.wellformed(r):
+                ctx.count("ill_formed_left_to_C03")
+                continue
+            c = lc.refnp.candidate_positions(r, lc.elems)
+            gain, e, how = lc.refnp.best_single_move_gain(c, lc.table)
+            ctx.count("xlarge_rankings_checked")
+            if lc.score(r) > 2 ** 31 / 1000:
+                ctx.count("xlarge_rankings_with_score_above_2^31/1000")
+            if gain > THRESHOLD + 1e-9:
+                ctx.violation(f"C08/improving-move-left:{how[0]}", f"{cfg} on {case['n']} elements x {case['m']} rankings "
+                              f"(score {lc.score(r)}): moving {lc.elems[e]!r} ({how[0]} at {how[1]}) improves the score by "
+                              f"{gain} > 0.001", sub, observed={"moved": lc.elems[e], "gain": gain}, expected="<= 0.001")
+            else:
+                ctx.nontrivial({"n": case["n"], "m": case["m"], "cfg": cfg, "d": gen.digest(case["ds"])})
+
+
 def check_case(case, ctx):
     """the case's dataset, then the same rankings in another order (other element ids, equal as a multiset) given to the
     same algorithm objects right afterwards"""
+    if case.get("dcls") == "xlarge":
+        return check_xlarge(case, ctx)
     judge(case, ctx, case["ds"])
     ds = case["ds"]
     if len(ds) >= 2:
@@ -153,7 +201,11 @@ def reach(counters, tier, info):
                             ("threshold-scale scheme cases", "scheme:S8", 100 * k),
                             ("second calls of the same objects on the same rankings in another order",
                              "second_calls_on_reordered_rankings", 800 * k),
-                            ("gains below the threshold legitimately left on the table", "gain_left_below_threshold", 5 * k)]:
+                            ("gains below the threshold legitimately left on the table", "gain_left_below_threshold", 5 * k),
+                            ("rankings over 63-1025 elements / 40-257 rankings checked (vectorised reference)",
+                             "xlarge_rankings_checked", 12 if tier == "quick" else 60),
+                            ("... with a score above 2^31 / 1000", "xlarge_rankings_with_score_above_2^31/1000",
+                             2 if tier == "quick" else 8)]:
         v = counters.get(key, 0)
         out.append({"name": name, "observed": v, "required": need, "ok": v >= need})
     for cfg in CONFIGS:
